@@ -31,6 +31,7 @@ size_t g_k2;            /* a second arbitrary index (copy models are exact at g_
 #define VF_INIT() do { g_live = NULL; } while (0)
 
 int nondet_int(void);
+unsigned nondet_uint_(void);
 _Bool nondet_bool(void);
 size_t nondet_size_t(void);
 double nondet_double(void);
@@ -189,7 +190,12 @@ void *memcpy(void *dst, const void *src, size_t n)
     __CPROVER_assert(!__CPROVER_same_object(dst, src) ||
                      __CPROVER_POINTER_OFFSET(dst) + n <= __CPROVER_POINTER_OFFSET(src) ||
                      __CPROVER_POINTER_OFFSET(src) + n <= __CPROVER_POINTER_OFFSET(dst), "memcpy: no overlap");
-    if (n > 0)
+    if (n == 64)
+    {   /* struct copies (sizeof(cJSON) == 64): exact */
+        struct vf_b64 { unsigned char b[64]; };
+        *(struct vf_b64*)dst = *(const struct vf_b64*)src;
+    }
+    else if (n > 0)
     {
 #ifndef VF_MEMCPY_NOCONTENT
         unsigned char v = (g_k < n) ? ((const unsigned char*)src)[g_k] : 0;
